@@ -158,7 +158,7 @@ class Ctx:
     def match_known(self, witness):
         """witness: dict with at least 'finding_class' computed by the property's classifier."""
         for k in self.known:
-            if k['property'] == self.pid and k['status'] == 'known' and k['key'] == witness.get('finding_class'):
+            if (k['property'] == self.pid or self.pid in k.get('also_affects', [])) and k['status'] == 'known' and k['key'] == witness.get('finding_class'):
                 return k
         return None
 
